@@ -12,6 +12,8 @@ func init() {
 		run: func(c *Ctx, r *Report) {
 			cone := unionCones(readerCone(c), writerCone(c))
 			ruleIO(c, r, cone, "", true)
+			ruleFlushFailStop(c, r, "")
+			ruleDeferFlush(c, r, "", "", "lzma")
 			r.Floor("EF-IO", 40)
 			ruleEOF(c, r, readerAPI(c), readerCone(c), "")
 			ruleWPub(c, r)
